@@ -488,7 +488,15 @@ impl<'a> Parser<'a> {
 
     pub fn parse_expression(&mut self) -> Result<ExprAST<'a>> {
         let lhs = self.parse_primary()?;
-        self.parse_op(0, lhs)
+        let lhs = self.parse_op(0, lhs)?;
+        if self.tokenizer.cur_token.is_question_mark() {
+            self.next()?;
+            let a = self.parse_expression()?;
+            self.expect(":")?;
+            let b = self.parse_expression()?;
+            return Ok(ExprAST::Ternary(Box::new(lhs), Box::new(a), Box::new(b)));
+        }
+        Ok(lhs)
     }
 
     fn parse_primary(&mut self) -> Result<ExprAST<'a>> {
@@ -516,11 +524,7 @@ impl<'a> Parser<'a> {
                 continue;
             }
             if self.tokenizer.cur_token.is_question_mark() {
-                self.next()?;
-                let a = self.parse_expression()?;
-                self.expect(":")?;
-                let b = self.parse_expression()?;
-                return Ok(ExprAST::Ternary(Box::new(lhs), Box::new(a), Box::new(b)));
+                return Ok(lhs);
             }
             let (l_bp, r_bp) = self.get_token_precidence();
             if l_bp < exec_prec {
